@@ -53,3 +53,4 @@ def run(chk, st, tier):
     chk.coverage["rule"] = ("portfolio files (random histories, page sizes {1,2,3,7,1000}, 3 codecs): parquet.ReadMetaData, PageHeaders and PageHeadersAtOffset (per chunk) on the real bytes, compared field by field with "
                             "(a) the footer and the page headers the extracted independent validator finds by walking the file, and (b) the Coq model of the three calls. distinct = distinct files; non-trivial = at least one row group.")
     chk.coverage["explanation"] = "see coq/props/C16.v."
+    chk.assumptions += ['validator walk is independent of parquet.PageHeaders; thrift model tested against the library']
